@@ -20,6 +20,7 @@ PRELUDE = """
     #[diplomat::attr(kotlin, error)]
     pub struct S2b<'a, 'b: 'a> { pub x: &'a Op, pub y: &'b Op }
     pub struct NestB<'a> { pub inner: SB<'a>, pub n: u8 }
+    pub struct Nest2<'a, 'b> { pub first: SB<'a>, pub second: SB<'b>, pub sl: SSl<'b> }
     pub struct S3<'a, 'b, 'c: 'b> { pub x: &'a Op, pub y: &'b Op, pub z: &'c Op }
     pub struct SSl<'a> { pub s: DiplomatSlice<'a, u8>, pub r: &'a Op }
     pub struct SSl2<'a, 'b> { pub s: DiplomatSlice<'a, u8>, pub t: DiplomatStr16Slice<'b>, pub n: u8 }
@@ -71,6 +72,8 @@ PARAM_FORMS = [
     Form("Option<SB<'x>>", 1, lambda l: "Option<SB<%s>>" % _lt(l[0]), lambda l: [("struct", "a", l[0])], optional=True),
     Form("NestB<'x>", 1, lambda l: "NestB<%s>" % _lt(l[0]), lambda l: [("struct", "a", l[0])]),
     Form("SSl<'x>", 1, lambda l: "SSl<%s>" % _lt(l[0]), lambda l: [("struct", "a", l[0])]),
+    Form("Nest2<'x,'y>", 2, lambda l: "Nest2<%s, %s>" % (_lt(l[0]), _lt(l[1])),
+         lambda l: [("struct", "a", l[0]), ("struct", "b", l[1])]),
     Form("Option<SSl<'x>>", 1, lambda l: "Option<SSl<%s>>" % _lt(l[0]), lambda l: [("struct", "a", l[0])], optional=True),
     Form("SSl2<'x,'y>", 2, lambda l: "SSl2<%s, %s>" % (_lt(l[0]), _lt(l[1])),
          lambda l: [("struct", "a", l[0]), ("struct", "b", l[1])]),
